@@ -37,6 +37,9 @@ pub fn shared(prop: &'static str, seed: u64) -> Vec<Scenario> {
         add(Tier::Quick, format!("liq2.{}", p.tag()), "alice partially liquidated by one liquidator, then by a second and a third one in later blocks", 600, 150, Box::new(t_liq2(pc.clone(), false)));
         add(Tier::Quick, format!("liq2.sameblock.{}", p.tag()), "two liquidations by different liquidators in one block", 600, 150, Box::new(t_liq2(pc.clone(), true)));
         add(Tier::Quick, format!("liq-two-same-block.{}", p.tag()), "the liquidator opens its own position and liquidates two traders in that block", 600, 150, Box::new(t_liq_two_same_block(pc.clone())));
+        add(Tier::Quick, format!("fund.pclose.close.{}", p.tag()), "positions, a funding settlement, then alice closes under a tight price band (a partial close), the band is lifted and she closes the rest", 400, 150, Box::new(t_fund_pclose(pc.clone())));
+        add(Tier::Quick, format!("dep-close.{}", p.tag()), "alice 10x, bob trades against her beyond her margin, alice deposits a symbolic amount (equity crosses zero exactly at one value) and closes", 400, 150, Box::new(t_dep_close(pc.clone(), 45)));
+        add(Tier::Quick, format!("prepaid-closes.{}", p.tag()), "three traders on one side close one after the other, each paid partly by the insurance fund (prepaid bad debt accumulates)", 400, 150, Box::new(t_prepaid_closes(pc.clone())));
         add(Tier::Quick, format!("two-vamms.{}", p.tag()), "two registered vAMMs: trades, a funding settlement and a liquidation on one, withdraw/close on the other", 600, 150, Box::new(t_two_vamms(pc.clone())));
         // thorough
         add(Tier::Thorough, format!("close.with.{}", p.tag()), d_close, 300, 300, Box::new(t_close(pc.clone(), true)));
@@ -133,6 +136,8 @@ pub fn c04(seed: u64) -> Vec<Scenario> {
         }
         add(Tier::Quick, format!("close10x.zero-equity.{}", p.clone().fees().tag()), d, 400, 150, Box::new(t_close_regime(pc.clone().fees(), 7)));
         add(Tier::Quick, format!("dep-close.{}", p.clone().fees().tag()), d, 400, 150, Box::new(t_dep_close(pc.clone().fees(), 45)));
+        add(Tier::Quick, format!("prepaid-closes.{}", p.tag()), d, 400, 150, Box::new(t_prepaid_closes(pc.clone())));
+        add(Tier::Quick, format!("prepaid-closes.{}", p.clone().native().fees().tag()), d, 400, 150, Box::new(t_prepaid_closes(pc.clone().native().fees())));
         add(Tier::Quick, format!("dep-close.{}", p.clone().native().tag()), d, 400, 150, Box::new(t_dep_close(pc.clone().native(), 45)));
         add(Tier::Quick, format!("opp.{}", p.tag()), d, 600, 150, Box::new(t_open2(pc.clone(), false)));
         add(Tier::Quick, format!("depwd.{}", p.tag()), d, 400, 120, Box::new(t_depwd(pc.clone())));
@@ -211,7 +216,8 @@ pub fn liq(prop: &'static str, seed: u64) -> Vec<Scenario> {
             add(Tier::Quick, format!("band.{}.mover-with.{}", rn, pc.tag()), d_band, 600, 150, Box::new(t_liq_band(pc.clone(), true, ru, false)));
             add(Tier::Quick, format!("band.{}.mover-against.{}", rn, pc.tag()), d_band, 600, 150, Box::new(t_liq_band(pc.clone(), false, ru, false)));
         }
-        add(Tier::Quick, format!("band.deep.mover-with.{}", pc.clone().partial().tag()), d_band, 600, 150, Box::new(t_liq_band(pc.clone().partial(), true, 45, false)));
+        add(Tier::Thorough, format!("band.deep.mover-with.{}", pc.clone().partial().tag()), d_band, 600, 150, Box::new(t_liq_band(pc.clone().partial(), true, 45, false)));
+        add(Tier::Quick, format!("band.shallow.mover-with.{}", pc.clone().partial().tag()), d_band, 600, 150, Box::new(t_liq_band(pc.clone().partial(), true, 5, false)));
         add(Tier::Thorough, format!("band.deep.mover-with.{}", pc.clone().counter().tag()), d_band, 600, 150, Box::new(t_liq_band(pc.clone().counter(), true, 45, false)));
         add(Tier::Thorough, format!("band.deep.mover-against.{}", pc.clone().counter().tag()), d_band, 600, 150, Box::new(t_liq_band(pc.clone().counter(), false, 45, false)));
         for (rn, ru) in [("shallow", 5u128), ("deep", 45)] {
